@@ -19,6 +19,7 @@ import (
 	"errors"
 	"net"
 	"sync"
+	"sync/atomic"
 	"time"
 
 	"github.com/caddyserver/caddy/v2"
@@ -72,7 +73,10 @@ type Connection struct {
 	frozenOffset int
 	matching     bool
 
-	bytesRead, bytesWritten uint64
+	// updated atomically: upstream-to-client copiers of a multi-peer upstream write
+	// concurrently, and a connection handed to a wrapped listener is still in use
+	// when its stats are logged
+	bytesRead, bytesWritten atomic.Uint64
 }
 
 var ErrConsumedAllPrefetchedBytes = errors.New("consumed all prefetched bytes")
@@ -111,14 +115,14 @@ func (cx *Connection) Read(p []byte) (n int, err error) {
 	// buffer has been "depleted" so read from
 	// underlying connection
 	n, err = cx.Conn.Read(p)
-	cx.bytesRead += uint64(n)
+	cx.bytesRead.Add(uint64(n))
 
 	return
 }
 
 func (cx *Connection) Write(p []byte) (n int, err error) {
 	n, err = cx.Conn.Write(p)
-	cx.bytesWritten += uint64(n)
+	cx.bytesWritten.Add(uint64(n))
 	return
 }
 
@@ -128,13 +132,13 @@ func (cx *Connection) Write(p []byte) (n int, err error) {
 // our Connection type (for example, `tls.Server()`).
 func (cx *Connection) Wrap(conn net.Conn) *Connection {
 	wrapped := &Connection{
-		Conn:         conn,
-		Context:      cx.Context,
-		Logger:       cx.Logger,
-		matching:     cx.matching,
-		bytesRead:    cx.bytesRead,
-		bytesWritten: cx.bytesWritten,
+		Conn:     conn,
+		Context:  cx.Context,
+		Logger:   cx.Logger,
+		matching: cx.matching,
 	}
+	wrapped.bytesRead.Store(cx.bytesRead.Load())
+	wrapped.bytesWritten.Store(cx.bytesWritten.Load())
 	// conn reads through cx, so any prefetched bytes cx has not handed out yet
 	// will reach the new connection by way of conn. Copying them (and the offset)
 	// as well would serve them twice. Only reuse the buffer once it is drained.
@@ -164,7 +168,7 @@ func (cx *Connection) prefetch() (err error) {
 			cx.buf = append(cx.buf, tmp[:n]...)
 		}
 
-		cx.bytesRead += uint64(n)
+		cx.bytesRead.Add(uint64(n))
 
 		if err != nil {
 			return err
